@@ -64,6 +64,10 @@ def assumptions():
             "reformatting a list that has no value would produce an empty field and is not enumerated",
             "early references: only references to values that were not removed are read back; a reference whose value was "
             "removed through the list is documented as invalidated",
+            "CR LF: a carriage return before the line feed is white space next to a value, so a field with CR LF line ends "
+            "reads the same values and a session without edits leaves it byte-identical; EDITING such a field is not "
+            "demanded - the control-file format ends lines with LF only, and the unchanged library refuses the write-back "
+            "('Input is inconsistent with its line endings': its writer splits the new text at the bare CR)",
             "LIST_UPLOADERS_INTERPRETATION is a third interpretation with its own splitting rule and is not covered by the "
             "statement (whitespace- or comma-separated)"]
 
@@ -141,6 +145,8 @@ def units(tier, seed):
     for interp in ("ws", "comma"):
         out += [{"interp": interp, "route": list(r)} for r in ROUTES[1:]]
         out += [{"interp": interp, "extra": first} for first in PIECES[interp](seed)]
+    # the same small values in a field whose lines end in CR LF (the carriage return is white space next to a value)
+    out += [{"interp": interp, "crlf": True} for interp in ("ws", "comma")]
     return out
 
 
@@ -554,6 +560,39 @@ def _run_case(case):
     return [], vals
 
 
+def crlf_values(interp, tier, seed):
+    out = []
+    for first in PIECES[interp](seed):
+        for v, L in layouts(interp, first, 3 if tier == "quick" else 4, seed):
+            w = v.replace("\n", "\r\n") + "\r"
+            if valid_value(w) and split_oracle(w, interp) == split_oracle(v, interp):
+                out.append((w, L))
+    return out
+
+
+def run_crlf(part, interp, tier, seed):
+    """read and no-change sessions on values whose lines end in CR LF"""
+    for v, L in crlf_values(interp, tier, seed):
+        base = {"interp": interp, "value": v, "tag": "crlf/"}
+        part.states += 1
+        part.transitions += 1
+        cases = [dict(base, sessions=[])]
+        cases += [dict(base, sessions=ss, place="mid", views="same") for ss in ([[("refread",)]], [[]])]
+        vals = split_oracle(v, interp)
+        for c in cases:
+            bad, _x = run_case(c)
+            part.traces += 1
+            part.evaluations += 1
+            for sig, exp, obs in bad:
+                part.violation(sig, c, exp, obs, rank=L)
+            part.outcomes["crlf/%s/%s" % (interp, "VIOLATION" if bad else "read" if not c["sessions"] else "session")] += 1
+        if len(vals) >= 2:
+            part.nontrivial += 1
+    part.max_depth = 3
+    part.sample(c)
+    return part
+
+
 def run_sweep(part, interp, chars):
     """one unusual character at a time inside the words of a list (read, no-op, and every depth-1 edit)"""
     sep = " " if interp == "ws" else ", "
@@ -713,6 +752,8 @@ def run_unit(u, tier, seed):
         return run_route(part, interp, tuple(u["route"]), tier, seed)
     if "extra" in u:
         return run_extra(part, interp, u["extra"], tier, seed)
+    if "crlf" in u:
+        return run_crlf(part, interp, tier, seed)
     Lread, L1, L2, L3 = (4, 4, 3, 0) if tier == "quick" else (5, 5, 4, 2)
     Lv = 2 if tier == "quick" else 3
     for v, L in layouts(interp, u["first"], max(Lread, L1), seed):
